@@ -1289,7 +1289,7 @@ def covar_errors(params, data, errs, B, C=None):
             covar = np.transpose(J).dot(J)
             onesigma = np.sqrt(np.diag(inv(covar)))
         except (np.linalg.LinAlgError, ValueError) as _:
-            onesigma = [-2] * len(mask[0])
+            onesigma = [ERR_MASK] * len(mask[0])
 
     j = 0
     for i in range(int(params['components'].value)):
